@@ -7,5 +7,6 @@ import (
 	_ "verif/props/c15"
 	_ "verif/props/c16"
 	_ "verif/props/c17"
+	_ "verif/props/c19"
 	_ "verif/props/cmachine"
 )
